@@ -1,6 +1,7 @@
 import DriverOps.C07
+import DriverOps.C17
 import DriverOps.Core
 open Lean
 namespace DriverOps
-def tables : List (String → Array Json → R (Option Json)) := [c07, core]
+def tables : List (String → Array Json → R (Option Json)) := [c07, c17, core]
 end DriverOps
